@@ -12,15 +12,8 @@ VALUE_ERRORS = ("ValueError", "UnicodeError", "UnicodeEncodeError")
 WIDTHS = (32, 256)
 
 
-def run(prog, rep):
-    rep.explanation = (
-        "byte-length abstract domain over the body of BTSString.write: lengths are linear forms over `size` and "
-        "L = len(encoded text); b'\\0'*k has length k only under a path constraint k >= 0; a raise under condition c refines "
-        "the fall-through state with not c. Obligations: returned value is E + NUL + zeros (str-terminated), the only return is "
-        "dominated by a ValueError raised exactly when L + 1 > size (str-refuse-before-return), the returned length "
-        "normalises to exactly `size` (str-width-exact), strict cp1252 (str-strict-codec), reader default codec agrees, "
-        "every call site passes a literal width in {32, 256}, reader cuts at the first NUL."
-    )
+def string_write_rules(prog, rep):
+    """BTSString.write: exact width, terminator, refusal instead of truncation, strict codec (shared with C01 C04 C06 C10)."""
     mod = "tdfTypes.py"
     wa = WriteAnalysis(prog)
     fq = "BTSString.write"
@@ -89,6 +82,22 @@ def run(prog, rep):
             rep.fail("str-strict-codec", mod, fq, c, f"encode uses errors={norm(errs)}: unencodable text is altered instead of refused")
         else:
             rep.ok("str-strict-codec", f"{fq}: strict windows-1252 (UnicodeEncodeError is a ValueError)")
+
+
+def run(prog, rep):
+    rep.explanation = (
+        "byte-length abstract domain over the body of BTSString.write: lengths are linear forms over `size` and "
+        "L = len(encoded text); b'\\0'*k has length k only under a path constraint k >= 0; a raise under condition c refines "
+        "the fall-through state with not c. Obligations: returned value is E + NUL + zeros (str-terminated), the only return is "
+        "dominated by a ValueError raised exactly when L + 1 > size (str-refuse-before-return), the returned length "
+        "normalises to exactly `size` (str-width-exact), strict cp1252 (str-strict-codec), reader default codec agrees, "
+        "every call site passes a literal width in {32, 256}, reader cuts at the first NUL."
+    )
+    mod = "tdfTypes.py"
+    string_write_rules(prog, rep)
+    wa = WriteAnalysis(prog)
+    cls = wa.cls
+    fq = "BTSString.write"
     # --- reader codec agreement
     cls = wa.cls
     for mname in ("read", "bread"):
